@@ -14,4 +14,5 @@ for p in C01 C02 C03 C04 C05 C06 C07 C08 C09 C10 C11 C12 C13 C14 C15 C16 C17 C18
 done
 git -C /repo checkout -- .
 ./setup.sh > /dev/null 2>&1
+git checkout -- evidence 2>/dev/null
 echo "false alarms: $bad"
